@@ -3,7 +3,7 @@
    sync.Once (re-checked against /repo by c20_source_once) and the first read error remembered.
    All theorems hold for every byte type, payload, read pattern, chunking by the transport and every
    interleaving with net/http closing the body behind the handler (SrvClose). *)
-From Coq Require Import List NArith Bool String.
+From Coq Require Import List NArith ZArith Bool String.
 Import ListNotations.
 From JR Require Import Reader Reader_Proofs.
 From JRGen Require Extracted.
@@ -12,6 +12,16 @@ From JRGen Require Extracted.
 Theorem c20_source_once :
   JRGen.Extracted.reader_wait_closes = [("Read"%string, true); ("Close"%string, true)].
 Proof. reflexivity. Qed.
+
+(* an arrival (of either party) is one atomic step of the rendezvous model (arrive_all): in the code each of the two
+   looks its uuid up and creates the missing entry inside one critical section of readersLk, and nothing stores to the
+   table outside of one *)
+Theorem c20_source_arrival_atomic :
+  JRGen.Extracted.reader_rendezvous_sections =
+    [["ch, found := readers[u]"; "if !found { ch = make(<*ast.ChanType>); readers[u] = ch }"];
+     ["ch, found := readers[u]"; "if !found { ch = make(<*ast.ChanType>); readers[u] = ch }"]]%string /\
+  JRGen.Extracted.reader_table_stores_outside_lock = 0%Z.
+Proof. split; reflexivity. Qed.
 
 (* what the handler's reads returned so far, followed by what is still to come, is exactly the payload
    (so: a prefix, nothing invented, duplicated or reordered), and no operation panics *)
@@ -69,6 +79,7 @@ Example c20_ex : exists w obs,
 Proof. eexists. eexists. vm_compute. repeat split. Qed.
 
 Print Assumptions c20_source_once.
+Print Assumptions c20_source_arrival_atomic.
 Print Assumptions c20_bytes_exact_prefix.
 Print Assumptions c20_bytes_exact_on_eof.
 Print Assumptions c20_eof_sticky.
